@@ -221,6 +221,18 @@ def run(rep, tier, seed):
     log(f"[C05] op-assign alphabet: {to.distinct} states, {len(to.cases)} transitions; replayed {no} walks / {so} statements; {vo} transitions validated, {mo} masked")
     rep.cov.update({"op_states": to.distinct, "op_transitions": len(to.cases), "op_walks_replayed": no, "op_transitions_validated": vo})
     nreq += no
+    # ---- assignment whose source reads PART of another variable (n = m.x, n = m.1, n = [m], n = m[1]): its own complete graph
+    tp = tlc.run("MC_C05", "MC_C05_part.cfg", workers=16, timeout=3000, collect=("EDGE",), tag="MC_C05_part")
+    if tp.violations or not tp.ok:
+        rep.fail("C05/model", "TLC reported a violation on the MechSession model (part-source alphabet): " + "; ".join(tp.errors[:3]), {"log": tp.log})
+    gp = S.Graph(tp.cases)
+    walks_p = build_walks(gp, init)
+    if tier == "quick" and len(walks_p) > 6000:
+        walks_p = random.Random(seed + 1).sample(walks_p, 6000)
+    np_, vp, mp, sp = replay_walks(rep, gp, walks_p, names, "2-name part-source alphabet")
+    log(f"[C05] part-source alphabet: {tp.distinct} states, {len(tp.cases)} transitions; replayed {np_} walks / {sp} statements; {vp} transitions validated, {mp} masked")
+    rep.cov.update({"part_states": tp.distinct, "part_transitions": len(tp.cases), "part_walks_replayed": np_, "part_transitions_validated": vp})
+    nreq += np_
     # ---- thorough: 3-name behaviours sampled by TLC simulation, replayed the same way
     if tier != "quick":
         ts = tlc.run("MC_C05", "MC_C05_sim.cfg", workers=1, simulate=6000, depth=16, timeout=3000, collect=("EDGE",),
